@@ -1426,22 +1426,23 @@ const SEEDS: &[&str] = &[
 
 // ---------------------------------------------------------------- model tokens (C tie)
 
-/// token classes of coq/Model/Fmt.v; payloads are code points
+/// token classes of coq/Model/Fmt.v
 #[derive(Clone, Debug, PartialEq)]
 enum MTok {
-    Lower(String),        // lower-case identifier (not splitting into primitive names)
-    Upper(String),        // capitalised identifier, optional trailing !s
-    Glyph(char),          // primitive glyph
-    Names(Vec<char>),     // run of ASCII primitive names written as one word; payload = the glyphs
-    Num(bool, String),    // optional ¯, digits
-    Sub(String),          // subscript digits
-    Strand,               // _
+    Lower(String),
+    Upper(String, usize),
+    Glyph(char),
+    Names(Vec<char>),
+    Eq,
+    Num(bool, String),
+    Sub(String),
+    SubA(String),
+    Strand,
     Open(char),
     Close(char),
-    Str(String),          // "…" (no escapes, no quotes inside)
-    Chr(char),            // @c
-    Sig(u8, u8),          // |a.b
-    Space,
+    Str(String),
+    Chr(char),
+    Space(bool),
 }
 
 fn main() {
@@ -1748,7 +1749,439 @@ fn glyph_pool() -> Vec<(char, &'static str)> {
     v
 }
 
-fn ctie(_n: usize, _seed: u64) {
-    let _ = MTok::Space;
-    println!("{{\"summary\":true,\"emitted\":0}}");
+#[derive(Clone, Copy, PartialEq, Debug)]
+enum Shape {
+    Lower,
+    Upper0,
+    UpperB,
+    Gly,
+    Neg,
+    NamesG,
+    NamesN,
+    Eq,
+    NumP,
+    NumN,
+    Sub,
+    SubA,
+    Strand,
+    Open,
+    Close,
+    Str,
+    Chr,
+}
+
+fn shape_of(t: &MTok) -> Option<Shape> {
+    use Shape::*;
+    Some(match t {
+        MTok::Lower(_) => Lower,
+        MTok::Upper(_, 0) => Upper0,
+        MTok::Upper(..) => UpperB,
+        MTok::Glyph('¯') => Neg,
+        MTok::Glyph(_) => Gly,
+        MTok::Names(gs) => {
+            if gs.last() == Some(&'¯') { NamesN } else { NamesG }
+        }
+        MTok::Eq => Eq,
+        MTok::Num(false, _) => NumP,
+        MTok::Num(true, _) => NumN,
+        MTok::Sub(_) => Sub,
+        MTok::SubA(_) => SubA,
+        MTok::Strand => Strand,
+        MTok::Open(_) => Open,
+        MTok::Close(_) => Close,
+        MTok::Str(_) => Str,
+        MTok::Chr(_) => Chr,
+        MTok::Space(_) => return None,
+    })
+}
+
+/// copy of Fmt.v src_adjacent_ok (used to generate; Coq re-checks wf_tokens on every case)
+fn src_adjacent_ok(a: Shape, b: Shape) -> bool {
+    use Shape::*;
+    match (a, b) {
+        (Lower | Upper0 | NamesG | NamesN, Lower | NamesG | NamesN) => false,
+        (Lower | Upper0, Upper0 | UpperB) => false,
+        (UpperB, Lower | NamesG | NamesN | Upper0 | UpperB) => true,
+        (NamesG | NamesN, Upper0 | UpperB) => true,
+        (NumP, NumP) | (NumN, NumP) => false,
+        (SubA, NumP | Sub | SubA) => false,
+        (Sub, Sub | SubA) => false,
+        (Neg, NumP) => false,
+        (Lower | Upper0, Eq) => false,
+        (Gly | Neg | NamesG | NamesN, Sub | SubA) => true,
+        (_, Sub | SubA) => false,
+        (Lower | Upper0 | NumP | NumN | Str | Chr | Close, Strand) => true,
+        (_, Strand) => false,
+        (Strand, Lower | Upper0 | NumP | NumN | Str | Chr | Open) => true,
+        (Strand, _) => false,
+        _ => true,
+    }
+}
+
+fn coq_str(s: &str) -> String {
+    format!("[{}]%N", s.chars().map(|c| (c as u32).to_string()).collect::<Vec<_>>().join(";"))
+}
+
+fn coq_tok(t: &MTok) -> String {
+    match t {
+        MTok::Lower(s) => format!("TLower {}", coq_str(s)),
+        MTok::Upper(s, b) => format!("TUpper {} {b}", coq_str(s)),
+        MTok::Glyph(c) => format!("TGlyph {}%N", *c as u32),
+        MTok::Names(gs) => format!("TNames {}", coq_str(&gs.iter().collect::<String>())),
+        MTok::Eq => "TEq".into(),
+        MTok::Num(n, d) => format!("TNum {n} {}", coq_str(d)),
+        MTok::Sub(d) => format!("TSub {}", coq_str(d)),
+        MTok::SubA(d) => format!("TSubA {}", coq_str(d)),
+        MTok::Strand => "TStrand".into(),
+        MTok::Open(c) => format!("TOpen {}%N", *c as u32),
+        MTok::Close(c) => format!("TClose {}%N", *c as u32),
+        MTok::Str(s) => format!("TStr {}", coq_str(s)),
+        MTok::Chr(c) => format!("TChr {}%N", *c as u32),
+        MTok::Space(m) => format!("TSpace {m}"),
+    }
+}
+
+struct TG<'a> {
+    r: &'a mut Rng,
+    glyphs: Vec<(char, &'static str)>,
+    names: Vec<(char, &'static str)>,
+    toks: Vec<MTok>,
+    first_is_glyph: bool,
+}
+
+const LOWERS: [&str; 8] = ["x", "y", "foo", "bar", "abc", "xs", "val", "q"];
+const UPPERS: [&str; 7] = ["A", "Foo", "Abc", "Xy", "M", "FooBar", "AB"];
+
+impl<'a> TG<'a> {
+    fn digits(&mut self) -> String {
+        let n = 1 + self.r.below(3);
+        (0..n).map(|i| (b'0' + if i == 0 { 1 + self.r.below(9) } else { self.r.below(10) } as u8) as char).collect()
+    }
+    fn subdigits(&mut self) -> String {
+        let n = 1 + self.r.below(2);
+        (0..n).map(|i| uiua::SUBSCRIPT_DIGITS[if i == 0 { 1 + self.r.below(9) } else { self.r.below(10) }]).collect()
+    }
+    fn atom(&mut self) -> MTok {
+        match self.r.below(7) {
+            0 => MTok::Lower(self.r.pick(&LOWERS).to_string()),
+            1 => MTok::Upper(self.r.pick(&UPPERS).to_string(), 0),
+            2 => MTok::Str((*self.r.pick(&["", "a", "a b", "x  y", "#1", "(", "_", "@"])).to_string()),
+            3 => MTok::Chr(*self.r.pick(&['a', 'Z', '0', '#', '(', '_', '"', '@', 'π'])),
+            4 => MTok::Num(true, self.digits()),
+            _ => MTok::Num(false, self.digits()),
+        }
+    }
+    fn word(&mut self) -> Vec<MTok> {
+        let k = self.r.below(20);
+        match k {
+            0..=4 => vec![self.atom()],
+            5..=8 => {
+                let mut v = vec![MTok::Glyph(self.r.pick(&self.glyphs).0)];
+                if self.r.chance(1, 5) {
+                    v.push(if self.r.chance(1, 2) { MTok::Sub(self.subdigits()) } else { MTok::SubA(self.subdigits()) });
+                }
+                v
+            }
+            9 => vec![MTok::Glyph('¯')],
+            10..=12 => {
+                let n = 1 + self.r.below(3);
+                let gs: Vec<char> = (0..n).map(|_| self.r.pick(&self.names).0).collect();
+                let mut v = vec![MTok::Names(gs)];
+                if self.r.chance(1, 4) {
+                    v.push(if self.r.chance(1, 2) { MTok::Sub(self.subdigits()) } else { MTok::SubA(self.subdigits()) });
+                }
+                v
+            }
+            13 => vec![MTok::Upper(self.r.pick(&UPPERS).to_string(), 1 + self.r.below(2))],
+            14 if self.first_is_glyph && !self.toks.is_empty() => vec![MTok::Eq],
+            15 | 16 => {
+                // strand of atoms
+                let n = 2 + self.r.below(2);
+                let mut v = Vec::new();
+                for i in 0..n {
+                    if i > 0 {
+                        v.push(MTok::Strand);
+                    }
+                    v.push(self.atom());
+                }
+                v
+            }
+            _ => vec![MTok::Num(false, self.digits())],
+        }
+    }
+    fn space(&mut self) -> MTok {
+        MTok::Space(self.r.chance(1, 3))
+    }
+    fn seq(&mut self, depth: usize, len: usize) {
+        for _ in 0..len {
+            if depth > 0 && self.r.chance(1, 6) {
+                let (o, c) = *self.r.pick(&[('(', ')'), ('[', ']'), ('{', '}')]);
+                self.push_words(vec![MTok::Open(o)]);
+                if self.r.chance(1, 3) {
+                    let s = self.space();
+                    self.toks.push(s);
+                }
+                let l = self.r.below(4);
+                self.seq(depth - 1, l);
+                if self.r.chance(1, 3) && !matches!(self.toks.last(), Some(MTok::Space(_))) {
+                    let s = self.space();
+                    self.toks.push(s);
+                }
+                self.toks.push(MTok::Close(c));
+            } else {
+                let w = self.word();
+                self.push_words(w);
+            }
+        }
+    }
+    /// append a word (its tokens are adjacent), separated from what precedes as the lexer requires
+    fn push_words(&mut self, w: Vec<MTok>) {
+        let prev = self.toks.iter().rev().find(|t| !matches!(t, MTok::Space(_))).cloned();
+        let has_space = matches!(self.toks.last(), Some(MTok::Space(_)));
+        if let (Some(p), false) = (&prev, has_space) {
+            let ok = src_adjacent_ok(shape_of(p).unwrap(), shape_of(&w[0]).unwrap());
+            if !ok || self.r.chance(3, 5) {
+                let s = self.space();
+                self.toks.push(s);
+            }
+        }
+        if self.toks.is_empty() {
+            self.first_is_glyph = matches!(w[0], MTok::Glyph(_));
+        }
+        self.toks.extend(w);
+    }
+}
+
+/// source spelling of the model tokens
+fn spell(r: &mut Rng, toks: &[MTok], names: &[(char, &'static str)]) -> String {
+    let mut s = String::new();
+    for t in toks {
+        match t {
+            MTok::Lower(x) => s.push_str(x),
+            MTok::Upper(x, b) => {
+                s.push_str(x);
+                for _ in 0..*b {
+                    s.push('!');
+                }
+            }
+            MTok::Glyph(c) => s.push(*c),
+            MTok::Names(gs) => {
+                for g in gs {
+                    s.push_str(names.iter().find(|(c, _)| c == g).map(|(_, n)| *n).unwrap());
+                }
+            }
+            MTok::Eq => s.push('='),
+            MTok::Num(neg, d) => {
+                if *neg {
+                    s.push(if r.chance(1, 2) { '¯' } else { '`' });
+                }
+                s.push_str(d);
+            }
+            MTok::Sub(d) => s.push_str(d),
+            MTok::SubA(d) => {
+                s.push(',');
+                for c in d.chars() {
+                    s.push((b'0' + uiua::SUBSCRIPT_DIGITS.iter().position(|x| *x == c).unwrap() as u8) as char);
+                }
+            }
+            MTok::Strand => s.push('_'),
+            MTok::Open(c) | MTok::Close(c) => s.push(*c),
+            MTok::Str(x) => {
+                s.push('"');
+                s.push_str(x);
+                s.push('"');
+            }
+            MTok::Chr(c) => {
+                s.push('@');
+                s.push(*c);
+            }
+            MTok::Space(m) => {
+                s.push(' ');
+                if *m {
+                    for _ in 0..1 + r.below(3) {
+                        s.push(' ');
+                    }
+                }
+            }
+        }
+    }
+    s
+}
+
+/// the real lexer's view of a source, in the model's classes (None: outside the classes)
+fn relex_real(src: &str) -> Option<Vec<MTok>> {
+    let (toks, errs, _) = quiet(|| uiua::lex(src, (), &mut Inputs::default())).ok()?;
+    if !errs.is_empty() {
+        return None;
+    }
+    let mut out: Vec<MTok> = Vec::new();
+    let mut last_name_end: Option<usize> = None;
+    for t in &toks {
+        let (a, b) = (t.span.start.byte_pos as usize, t.span.end.byte_pos as usize);
+        let text = src.get(a..b)?;
+        let mut name_end = None;
+        let m = match &t.value {
+            Token::Ident(id) => {
+                let id = id.as_str();
+                let bangs = id.chars().rev().take_while(|c| *c == '!').count();
+                let base = &id[..id.len() - bangs];
+                if id != text {
+                    return None;
+                }
+                if base.chars().all(|c| c.is_ascii_lowercase()) && bangs == 0 && !base.is_empty() {
+                    MTok::Lower(base.into())
+                } else if base.chars().next().is_some_and(|c| c.is_ascii_uppercase()) && base.chars().all(|c| c.is_ascii_alphabetic()) {
+                    MTok::Upper(base.into(), bangs)
+                } else {
+                    return None;
+                }
+            }
+            Token::Glyph(p) => {
+                let g = p.glyph()?;
+                if text.chars().count() == 1 && text.chars().next() == Some(g) {
+                    MTok::Glyph(g)
+                } else if text.chars().all(|c| c.is_ascii_lowercase()) {
+                    name_end = Some(b);
+                    if last_name_end == Some(a) {
+                        if let Some(MTok::Names(gs)) = out.last_mut() {
+                            gs.push(g);
+                            last_name_end = name_end;
+                            continue;
+                        }
+                    }
+                    MTok::Names(vec![g])
+                } else {
+                    return None;
+                }
+            }
+            Token::Simple(s) => match format!("{s}").as_str() {
+                "=" => MTok::Eq,
+                "_" => MTok::Strand,
+                "(" | "[" | "{" => MTok::Open(text.chars().next()?),
+                ")" | "]" | "}" => MTok::Close(text.chars().next()?),
+                _ => return None,
+            },
+            Token::Number => {
+                let neg = text.starts_with('¯') || text.starts_with('`');
+                let d: String = text.chars().skip(neg as usize).collect();
+                if d.is_empty() || !d.chars().all(|c| c.is_ascii_digit()) {
+                    return None;
+                }
+                MTok::Num(neg, d)
+            }
+            Token::Subscr(_) => {
+                if let Some(d) = text.strip_prefix(',') {
+                    if d.is_empty() || !d.chars().all(|c| c.is_ascii_digit()) {
+                        return None;
+                    }
+                    MTok::SubA(d.chars().map(|c| uiua::SUBSCRIPT_DIGITS[(c as u8 - b'0') as usize]).collect())
+                } else if !text.is_empty() && text.chars().all(|c| uiua::SUBSCRIPT_DIGITS.contains(&c)) {
+                    MTok::Sub(text.into())
+                } else {
+                    return None;
+                }
+            }
+            Token::Str(x) => {
+                if format!("\"{x}\"") != text {
+                    return None;
+                }
+                MTok::Str(x.clone())
+            }
+            Token::Char(c) => {
+                if format!("@{c}") != text {
+                    return None;
+                }
+                MTok::Chr(c.chars().next()?)
+            }
+            Token::Spaces => MTok::Space(text.chars().count() > 1),
+            _ => return None,
+        };
+        last_name_end = name_end;
+        out.push(m);
+    }
+    Some(out)
+}
+
+fn ctie(n: usize, seed: u64) {
+    let mut r = Rng::new(seed ^ 0x30);
+    let glyphs = glyph_pool();
+    let mut names: Vec<(char, &'static str)> = glyphs.iter().filter(|(_, n)| n.len() >= 3 && n.chars().all(|c| c.is_ascii_lowercase())).cloned().collect();
+    names.push(('¯', "negate"));
+    let (mut emitted, mut uncovered, mut unparse, mut tries) = (0usize, 0usize, 0usize, 0usize);
+    let mut lengths: BTreeMap<usize, usize> = BTreeMap::new();
+    let mut seen = std::collections::BTreeSet::new();
+    // fixed cases: the formatter's own test vectors that fall into the model's classes
+    let fixed: Vec<Vec<MTok>> = vec![
+        vec![MTok::Upper("Abc".into(), 0), MTok::Space(false), MTok::Names(vec!['⊢'])],
+        vec![MTok::Upper("Abc".into(), 0), MTok::Space(true), MTok::Names(vec!['⊢'])],
+        vec![MTok::Names(vec!['⇡']), MTok::SubA("₁".into()), MTok::Space(false), MTok::Num(false, "10".into())],
+        vec![MTok::Names(vec!['⇡']), MTok::SubA("₁".into()), MTok::Space(true), MTok::Num(false, "10".into())],
+        vec![MTok::Glyph('⇡'), MTok::Sub("₁".into()), MTok::Space(false), MTok::Num(false, "10".into())],
+        vec![MTok::Glyph('∘'), MTok::Space(false), MTok::Upper("M".into(), 1), MTok::Eq],
+        vec![MTok::Names(vec!['¯']), MTok::Num(false, "5".into())],
+        vec![MTok::Names(vec!['⇌', '¯']), MTok::Num(false, "5".into())],
+    ];
+    let mut fi = 0usize;
+    while emitted < n && tries < n * 30 {
+        tries += 1;
+        let toks = if fi < fixed.len() {
+            fi += 1;
+            fixed[fi - 1].clone()
+        } else {
+            let mut g = TG { r: &mut r, glyphs: glyphs.clone(), names: names.clone(), toks: Vec::new(), first_is_glyph: false };
+            if g.r.chance(1, 4) {
+                let s = g.space();
+                g.toks.push(s);
+            }
+            let len = 1 + g.r.below(7);
+            g.seq(2, len);
+            if g.r.chance(1, 4) && !matches!(g.toks.last(), Some(MTok::Space(_))) {
+                let s = g.space();
+                g.toks.push(s);
+            }
+            g.toks
+        };
+        let src = spell(&mut r, &toks, &names);
+        if !seen.insert(src.clone()) {
+            continue;
+        }
+        // covered only if the real lexer reads the source as exactly these words
+        if relex_real(&src).as_ref() != Some(&toks) {
+            uncovered += 1;
+            continue;
+        }
+        let out = match fmt(&src, &Cfg::default()) {
+            Ok(Ok(o)) => o,
+            _ => {
+                unparse += 1;
+                continue;
+            }
+        };
+        let out = out.strip_suffix('\n').unwrap_or(&out).to_string();
+        if out.contains('\n') {
+            uncovered += 1;
+            continue;
+        }
+        // idempotence of the real formatter on the case, and the real lexer's view of the output
+        let words: Vec<&MTok> = toks.iter().filter(|t| !matches!(t, MTok::Space(_))).collect();
+        let mut pairs: Vec<String> = Vec::new();
+        for w in words.windows(2) {
+            pairs.push(format!("{:?}-{:?}", shape_of(w[0]).unwrap(), shape_of(w[1]).unwrap()));
+        }
+        *lengths.entry(words.len()).or_default() += 1;
+        let relexed: Option<String> = relex_real(&out).map(|ts| format!("[{}]", ts.iter().map(coq_tok).collect::<Vec<_>>().join("; ")));
+        println!(
+            "{{\"toks\":{},\"src\":{},\"out\":{},\"pairs\":{},\"relex\":{}}}",
+            jstr(&format!("[{}]", toks.iter().map(coq_tok).collect::<Vec<_>>().join("; "))),
+            jstr(&src),
+            jstr(&out),
+            serde_json::to_string(&pairs).unwrap(),
+            relexed.map(|s| jstr(&s)).unwrap_or("null".into())
+        );
+        emitted += 1;
+    }
+    println!(
+        "{{\"summary\":true,\"emitted\":{emitted},\"uncovered\":{uncovered},\"unparseable\":{unparse},\"tries\":{tries},\"lengths\":{}}}",
+        serde_json::to_string(&lengths).unwrap()
+    );
 }
